@@ -40,6 +40,7 @@ MUTS = {
     "M25_svg_gid_not_updated": ("svg.py", "    _ensure_groups_grouped_in_glyph_order(color_glyphs, ttfont, reuse_groups)\n", "    pass\n", ["C04", "C02", "C07"]),
     "M26_fea_reverse_length_order": ("features.py", "    for rgi in sorted(rgi_sequences):\n", "    for rgi in sorted(rgi_sequences, key=lambda r: (-len(r), r)):\n", ["C04"]),
     "M26b_F5_reverted_name_collision": ("glyph.py", "    if not name[0].isalpha() or name.startswith(\"g_\"):\n", "    if not name[0].isalpha():\n", ["C04", "C10"]),
+    "M26c_F14_reverted_one_hex_digit": ("glyph.py", "    return \"%02x\" % cp\n", "    return \"%x\" % cp\n", ["C10", "C04"]),
     "M24_min_advance": ("color_glyph.py", "    return max(config.width, round(font_height * view_box.w / view_box.h))", "    return min(config.width, round(font_height * view_box.w / view_box.h)) if config.width else round(font_height * view_box.w / view_box.h)", ["C04", "C01"]),
     "M27_bounds_ignore_transform": ("write_font.py", "    if not transform.almost_equals(Affine2D.identity()):\n        pen = TransformPen(bounds_pen, transform)", "    if False:\n        pen = TransformPen(bounds_pen, transform)", ["C05"]),
     "M72_cx_uses_sy": ("paint.py", "                    cx = dx / (1 - sx)\n", "                    cx = dx / (1 - sy) if sy != 1 else dx / (1 - sx)\n", ["C16"]),
@@ -52,7 +53,7 @@ MUTS = {
     "M29_round_not_floor_ceil": ("write_font.py", "        int(math.floor(xMin / factor) * factor),\n        int(math.floor(yMin / factor) * factor),\n        int(math.ceil(xMax / factor) * factor),\n        int(math.ceil(yMax / factor) * factor),", "        int(round(xMin / factor) * factor),\n        int(round(yMin / factor) * factor),\n        int(round(xMax / factor) * factor),\n        int(round(yMax / factor) * factor),", ["C05"]),
     "M30_quantise_unrounded": ("write_font.py", "        quantization = round(config.upem * 0.02)\n", "        quantization = config.upem * 0.02\n", ["C05"]),
     "M30b_clip_for_empty": ("write_font.py", "    if bounds is None:\n        return\n    # before quantizing", "    if bounds is None:\n        return (0, 0, 0, 0)\n    # before quantizing", ["C05"]),
-    "M31_no_fixed_safe": ("glyph_reuse.py", "        if not fixed_safe(*affine):\n", "        if False:\n", ["C06"]),
+    "M31_no_fixed_safe": ("glyph_reuse.py", "        if not fixed_safe(*affine):\n", "        if False:\n", ["C06", "C19"]),
     "M32_tolerance_x10": ("glyph_reuse.py", "            SVGPath(d=glyph_path), SVGPath(d=path), self._reuse_tolerance\n", "            SVGPath(d=glyph_path), SVGPath(d=path), self._reuse_tolerance * 10\n", ["C06"]),
     "M33_reuse_without_affine_check": ("glyph_reuse.py", "        if affine is None:\n            logging.warning(\"affine_between failed: %s %s \", glyph_path, path)\n            return None\n", "        if affine is None:\n            affine = Affine2D.identity()\n", ["C06", "C01"]),
     "M82_normalize_tolerance_div1000": ("glyph_reuse.py", "        self._normalize_tolerance = self._reuse_tolerance / 10\n", "        self._normalize_tolerance = self._reuse_tolerance / 1000\n", ["C19"]),
